@@ -5,9 +5,6 @@ package keystore
 import (
 	"bytes"
 	"errors"
-
-	"massnet.org/mass/poc/wallet/keystore/hdkeychain"
-	"massnet.org/mass/poc/wallet/keystore/snacl"
 )
 
 func vsRandRead(b []byte) (int, error) { copy(b, vsNondetBytes(len(b), "rand")); return len(b), nil }
@@ -61,7 +58,7 @@ func VsH_LockCycle() {
 	vsAssume(string(p) != string(priv))
 	vsAssert(kmc.IsLocked() && !a.unlocked, "new-wallet-is-locked")
 	vsAssert(vsNoSecrets(a, priv), "locked-new-wallet-holds-no-secret")
-	switch vsFork(8, "scenario") {
+	switch vsFork(9, "scenario") {
 	case 0: // wrong passphrase never unlocks
 		vsAssert(kmc.Unlock(p) != nil, "wrong-passphrase-does-not-unlock")
 		vsAssert(kmc.IsLocked() && !a.unlocked, "failed-unlock-stays-locked")
@@ -105,24 +102,21 @@ func VsH_LockCycle() {
 		vsAssert(!a.unlocked, "refused-change-leaves-wallet-locked")
 		vsAssume(!a.unlocked)
 		vsAssert(vsNoSecrets(a, priv), "refused-change-leaves-no-secret")
-		vsAssert(kmc.Unlock(priv) == nil, "refused-change-keeps-current-passphrase")
-	case 7:
-		vsAssert(kmc.Unlock(priv) == nil, "dbg7-first-unlock")
+		e2 := kmc.Unlock(priv)
+		vsAssert(e2 == nil, "refused-change-keeps-current-passphrase")
+	case 7: // relock and unlock again
+		vsAssume(kmc.Unlock(priv) == nil)
 		kmc.Lock()
 		vsAssert(kmc.Unlock(priv) == nil, "unlock-lock-unlock-works")
-	case 6: // a failed attempt does not disable the current passphrase
-		vsAssert(kmc.Unlock(p) != nil, "wrong-passphrase-does-not-unlock")
-		vsAssert(!a.unlocked, "failed-unlock-stays-locked")
-		vsAssume(!a.unlocked) // (just proved) keeps the state free of the refuted branch's values
-		e2 := kmc.Unlock(priv)
-		vsAssert(e2 != ErrInvalidPassphrase, "dbg6-not-invalid-passphrase")
-		vsAssert(e2 != ErrDeriveMasterPrivKey, "dbg6-not-derive")
-		vsAssert(e2 != snacl.ErrDecryptFailed && e2 != snacl.ErrMalformed, "dbg6-not-decrypt")
-		vsAssert(e2 != hdkeychain.ErrBadChecksum, "dbg6-not-badchecksum")
-		vsAssert(e2 != hdkeychain.ErrInvalidKeyLen, "dbg6-not-keylen")
-		vsAssert(e2 != hdkeychain.ErrUnusableSeed, "dbg6-not-unusable")
-		vsAssert(e2 != hdkeychain.ErrInvalidChild, "dbg6-not-invalidchild")
-		vsAssert(e2 == nil, "current-passphrase-unlocks-after-a-failed-attempt")
+	case 6: // a failed attempt does not disable the current passphrase; export with the current one leaves nothing behind
+		vsAssume(kmc.Unlock(p) != nil && !a.unlocked) // (proved in scenario 0)
+		vsAssert(kmc.Unlock(priv) == nil, "current-passphrase-unlocks-after-a-failed-attempt")
+	case 8:
+		_, err := kmc.ExportKeystore(id, priv)
+		vsAssert(err == nil, "export-with-current-passphrase-succeeds")
+		vsAssume(err == nil)
+		vsAssert(!a.unlocked && kmc.IsLocked(), "export-does-not-unlock")
+		vsAssert(vsNoSecrets(a, priv), "export-with-current-passphrase-while-locked-leaves-no-secret")
 	case 5: // passphrase change while unlocked, then lock
 		np := vsNondetBytes(6, "newpass")
 		vsAssume(string(np) != string(priv) && string(np) != string(pub))
